@@ -49,7 +49,10 @@ def gen_case(rng, idx, tier):
             return None
         cnt = rng.randint(1, m)
         pool = sorted(set(ref.distinct(V)) | {a + (b - a) * F(i, 17) for i in range(1, 17)})
-        return sorted(rng.sample(pool, min(cnt, len(pool))))
+        picked = sorted(rng.sample(pool, min(cnt, len(pool))))
+        if rng.random() < 0.4:
+            rng.shuffle(picked)  # interpolation nodes are a set: any order
+        return picked
 
     # the same (source, target) pair is fitted 1-3 times with different node sets in one process: an answer must not
     # depend on what was asked before
